@@ -366,14 +366,17 @@ CHECKS = {
                        "end markers dropped/duplicated/inserted, messages dropped/duplicated/reordered/cut, add/copy/data lengths changed, fewer or "
                        "more block hashes - re-framed and re-compressed so framing stays valid, containers never mutated; (3) thorough tier: go "
                        "test -fuzz on the uncompressed byte stream for 4 targets, inputs violating the stated precondition discarded and counted. "
-                       "Targets: patcher.New+Resume+Commit (fresh bowl in a temp dir, dry bowl), rediff.NewContext+Optimize, ReadSignature+"
+                       "Targets: patcher.New+Resume+Commit (fresh bowl in a temp dir, dry bowl; and - truncations only - Resume from a checkpoint that an application of the intact stream under "
+                       "the same framing handed out, provided what the checkpoint resumes from lies inside the truncated stream), rediff.NewContext+Optimize, ReadSignature+"
                        "ComputeHashInfo+ValidateAsError, OverlayPatchContext.Patch onto a temp file. Oracle: error or nil, never a panic "
                        "(recover in-process, journal for goroutine panics), returns within 60s (watchdog + confirmation run)."),
         "level_note": "native fuzzing cannot be pinned to a seed; its saved crashers are the reproducible unit (they replay through ./check C10 --replay).",
         "rule": ("evaluations = streams fed to a target. Non-trivial: a truncated or mutated stream whose mutation lies behind the containers (the "
                  "target must handle ops to reach it). Distinct: enumerated prefixes by construction, mutations by SHA-1 of the spec."),
-        "assumptions": ["the two containers in a stream are well-formed and no message declares a length beyond the stream (the property's own precondition)"],
-        "required_classes": {"quick": ["target:apply-fresh", "target:optimize", "target:signature", "target:overlay", "mutation:set:fileIndex", "framing:compressed", "truncation:every-prefix"],
+        "assumptions": ["the two containers in a stream are well-formed and no message declares a length beyond the stream (the property's own precondition)",
+                        "the resume target is fed truncated streams only: behind dropped/duplicated/resized messages a resumed reader starts between message boundaries, where arbitrary bytes read as a length prefix (outside the precondition); "
+                        "checkpoints that resume from beyond the end of the stream belong to another stream and are skipped (savior's in-memory seek source, which the harness uses, panics on them; that is neither wharf nor in the quantifier)"],
+        "required_classes": {"quick": ["target:apply-fresh", "target:apply-resume", "target:optimize", "target:signature", "target:overlay", "mutation:set:fileIndex", "framing:compressed", "truncation:every-prefix"],
                              "thorough": ["target:apply-fresh", "target:optimize", "target:signature", "target:overlay", "mutation:set:fileIndex", "framing:compressed", "truncation:every-prefix"]},
         "stages": [enum("truncate", "TestTruncate", qs=16, ts=16, qt=900, tt=5400),
                    rapid("mutate", "TestMutate", 16000, 960000, qs=16, ts=16, qt=600, tt=5400)],
